@@ -12,7 +12,9 @@ import (
 	"net/http/httptest"
 	"os"
 	"path/filepath"
+	"runtime"
 	"sort"
+	"sync"
 	"strings"
 	"sync/atomic"
 	"testing/synctest"
@@ -111,6 +113,9 @@ type Run struct {
 
 	clients  []*clientState
 	lastLock map[uint64]lockAttr // goroutine id -> kind of the last lock-acquiring point released for it
+	heldMu   sync.Mutex
+	held     map[uint64]*heldRec // goroutine id -> runner lock it holds (from release of a lock point until "auto.unlocked")
+	deadlock string              // set once: description of a goroutine that blocks for ever while holding the runner lock
 	goidTag  map[uint64]int
 	hello    chan helloMsg
 	done     chan OpResult
@@ -161,7 +166,7 @@ const (
 func NewRun(sc *Scenario, tape *Tape) *Run {
 	return &Run{sc: sc, tape: tape,
 		runnerOwner: map[*prunner.PipelineRunner]*World{}, storeOwner: map[*store.JsonDataStore]*World{},
-		goidTag: map[uint64]int{}, lastLock: map[uint64]lockAttr{}, hello: make(chan helloMsg, 64), done: make(chan OpResult, 64),
+		goidTag: map[uint64]int{}, lastLock: map[uint64]lockAttr{}, held: map[uint64]*heldRec{}, hello: make(chan helloMsg, 64), done: make(chan OpResult, 64),
 		stats: Stats{Faults: map[string]int{}, Probes: map[string]int{}, AbstractSeen: map[string]bool{}},
 	}
 }
@@ -242,6 +247,20 @@ func (run *Run) hook(point string, ctx []interface{}) {
 
 func (run *Run) skipHook(point string, ctx []interface{}) bool {
 	switch point {
+	case "auto.lockedW", "auto.lockedR":
+		attr := lkW
+		if point == "auto.lockedR" {
+			attr = lkR
+		}
+		var owner interface{}
+		if len(ctx) > 0 {
+			owner = ctx[0]
+		}
+		run.noteLocked(attr, owner)
+		return false
+	case "auto.unlocked":
+		run.noteUnlocked()
+		return false
 	case "persist.stop":
 		c, _ := ctx[1].(context.Context)
 		return c != nil && c.Err() != nil
@@ -413,6 +432,201 @@ func (run *Run) writerInside() bool {
 	return false
 }
 
+// heldRec: the runner lock as held by one goroutine. Entries are made and
+// removed by the notifications the instrumenter puts after every `X.mx.Lock()`,
+// `X.mx.RLock()` and unlock of the root package, executed by the goroutine itself.
+type heldRec struct {
+	kind  lockAttr // lkR or lkW
+	depth int
+	owner interface{} // the runner
+	step  int
+}
+
+//go:norace
+func (run *Run) noteLocked(attr lockAttr, owner interface{}) {
+	gid := goid()
+	if gid == run.core.driver {
+		return
+	}
+	raceOff()
+	run.heldMu.Lock()
+	if h := run.held[gid]; h != nil && h.owner == owner {
+		h.depth++
+	} else {
+		run.held[gid] = &heldRec{kind: attr, depth: 1, owner: owner, step: run.step}
+	}
+	run.heldMu.Unlock()
+	raceOn()
+}
+
+//go:norace
+func (run *Run) noteUnlocked() {
+	gid := goid()
+	if gid == run.core.driver {
+		return
+	}
+	raceOff()
+	run.heldMu.Lock()
+	if h := run.held[gid]; h != nil {
+		h.depth--
+		if h.depth <= 0 {
+			delete(run.held, gid)
+		}
+	}
+	run.heldMu.Unlock()
+	raceOn()
+}
+
+// holder describes who stands in the way of a goroutine gid that wants the lock
+// of runner owner in mode attr (gid 0, attr lkR: the driver's own snapshot).
+// parked: the holder waits at a hook point and can be released; otherwise it sits
+// in a channel operation, a timer or a wait group - or has returned without
+// unlocking - and releasing the requester would block it on a sync.RWMutex,
+// which the bubble does not count as durably blocked: the simulator would hang.
+//
+//go:norace
+func (run *Run) holder(gid uint64, attr lockAttr, owner interface{}) (rec *parked, found bool, desc string) {
+	raceOff()
+	run.heldMu.Lock()
+	defer func() { run.heldMu.Unlock(); raceOn() }()
+	if len(run.held) == 0 {
+		return nil, false, ""
+	}
+	var gids []uint64
+	for g, h := range run.held {
+		if h.owner == owner {
+			gids = append(gids, g)
+		}
+	}
+	sort.Slice(gids, func(i, j int) bool { return gids[i] < gids[j] })
+	for _, g := range gids {
+		h := run.held[g]
+		if h.kind != lkW && attr != lkW {
+			continue
+		}
+		if g == gid {
+			return nil, true, fmt.Sprintf("itself: it took the lock in step %d and takes it again", h.step)
+		}
+		for _, q := range run.core.parkedQ {
+			if _, _, _, qg, _, _ := q.rd(); qg == g {
+				return q, true, ""
+			}
+		}
+		mode := "read"
+		if h.kind == lkW {
+			mode = "write"
+		}
+		return nil, true, fmt.Sprintf("a goroutine that took the %s lock in step %d and has not released it (%s)", mode, h.step, whereIs(g))
+	}
+	return nil, false, ""
+}
+
+// lockBusy: would a read of the runner by the driver block? If the holder is not
+// parked at a hook point, fake time is given a minute to make it let go; after
+// that the runner is deadlocked (see declareDeadlock).
+func (run *Run) lockBusy() bool {
+	if run.cur == nil || run.cur.isDead() || run.sc.Cfg.NoOracle {
+		return false
+	}
+	if run.deadlock != "" {
+		return true
+	}
+	rec, found, desc := run.holder(0, lkR, run.cur.r)
+	for i := 0; found && rec == nil && i < 6; i++ {
+		run.core.advanceExactly(10 * time.Second)
+		run.collect()
+		rec, found, desc = run.holder(0, lkR, run.cur.r)
+	}
+	if found && rec == nil {
+		run.declareDeadlock("every reader and writer of the runner is blocked by " + desc + " (60 s of simulated time later it still holds it)")
+	}
+	return found
+}
+
+// lockHolderParked returns the record of a goroutine parked at a hook point
+// while holding the write lock of the current runner: it is run first, nothing
+// else can be observed until it lets go.
+func (run *Run) lockHolderParked() *parked {
+	if run.cur == nil || run.cur.isDead() || run.sc.Cfg.NoOracle || run.deadlock != "" {
+		return nil
+	}
+	rec, _, _ := run.holder(0, lkR, run.cur.r)
+	return rec
+}
+
+// stuckOnLock: is a parked goroutine of the current world waiting for the runner
+// lock behind a holder that is not parked anywhere?
+func (run *Run) stuckOnLock() string {
+	for _, p := range run.core.parkedQ {
+		_, name, owner, gid, attr, _ := p.rd()
+		if attr != lkR && attr != lkW {
+			continue
+		}
+		if w := run.worldOf(owner); w == nil || w.isDead() {
+			continue
+		}
+		if rec, found, desc := run.holder(gid, attr, owner); found && rec == nil {
+			return name + " is blocked by " + desc
+		}
+	}
+	return ""
+}
+
+// deadlockProps: the properties whose statements a runner that never answers
+// again contradicts (the same set for which a panic of the runner is a violation,
+// plus those with an explicit "eventually").
+var deadlockProps = map[string]bool{"C01": true, "C02": true, "C03": true, "C04": true, "C06": true, "C07": true, "C08": true, "C11": true, "C16": true}
+
+func (run *Run) declareDeadlock(desc string) {
+	if run.deadlock != "" {
+		return
+	}
+	run.deadlock = desc
+	run.stopMain = true
+	run.probe("runner_lock_deadlock")
+	prop := run.sc.Profile
+	if !deadlockProps[prop] {
+		prop = "C03"
+	}
+	run.violate(prop, "deadlock", "the runner lock is never released: %s; no request is answered and no job makes progress any more", desc)
+}
+
+// whereIs describes what goroutine gid is doing, from a stack dump: its wait
+// state and its innermost frame in Flowpack/prunner. (No goroutine ids or
+// addresses: the text is part of replayable output.)
+func whereIs(gid uint64) string {
+	buf := make([]byte, 1<<20)
+	buf = buf[:runtime.Stack(buf, true)]
+	head := fmt.Sprintf("goroutine %d [", gid)
+	for _, blk := range strings.Split(string(buf), "\n\n") {
+		if !strings.HasPrefix(blk, head) {
+			continue
+		}
+		lines := strings.Split(blk, "\n")
+		state := strings.TrimSuffix(strings.TrimPrefix(lines[0], head), "]:")
+		if i := strings.IndexAny(state, ",]"); i >= 0 {
+			state = state[:i]
+		}
+		for _, l := range lines[1:] {
+			if strings.HasPrefix(l, "github.com/Flowpack/prunner") {
+				if i := strings.LastIndex(l, "("); i > 0 {
+					l = l[:i]
+				}
+				return "it is in state '" + state + "' in " + l
+			}
+		}
+		return "it is in state '" + state + "'"
+	}
+	return "it has returned without unlocking"
+}
+
+// lockFree: can the goroutine of record p take the runner lock without blocking?
+func (run *Run) lockFree(p *parked) bool {
+	_, _, owner, gid, attr, _ := p.rd()
+	_, found, _ := run.holder(gid, attr, owner)
+	return !found
+}
+
 // grantable: the lock model of DESIGN §2.4. A record that is about to take the
 // write lock is not released while anybody is parked inside; one that is about
 // to take the read lock not while a write-lock holder is parked inside.
@@ -420,9 +634,9 @@ func (run *Run) grantable(p *parked) bool {
 	_, _, _, _, attr, _ := p.rd()
 	switch attr {
 	case lkW:
-		return run.readersInside() == 0
+		return run.readersInside() == 0 && run.lockFree(p)
 	case lkR:
-		return !run.writerInside()
+		return !run.writerInside() && run.lockFree(p)
 	}
 	return true
 }
@@ -537,7 +751,7 @@ func (run *Run) Execute() (err error) {
 	// drain phase: no more client ops, no more faults, fair scheduling, tasks succeed
 	run.mode = modeDrain
 	run.drain()
-	if !run.sc.Cfg.NoOracle {
+	if !run.sc.Cfg.NoOracle && run.deadlock == "" {
 		run.mon.onEnd()
 		if run.cur != nil && !run.cur.isDead() && run.stats.Drained {
 			switch run.sc.Profile {
@@ -567,6 +781,9 @@ func (run *Run) allClientsDone() bool {
 // drawn from the tape.
 func (run *Run) nextChoice() (choice, bool) {
 	run.collect()
+	if p := run.lockHolderParked(); p != nil {
+		return choice{kind: "release", rec: p, name: run.core.final(p)}, true
+	}
 	if run.mode == modeSettle {
 		if ch, ok := run.settleChoice(); ok {
 			return ch, true
@@ -743,6 +960,15 @@ func (run *Run) apply(ch choice) {
 // recordStep closes a step: collect results, snapshot, run the monitors.
 func (run *Run) recordStep(si StepInfo) {
 	run.collect()
+	if run.lockBusy() {
+		// the runner lock is write-held across this step (by a goroutine parked at a hook point inside its critical
+		// section, or by one that will never release it): the driver cannot read the runner. Results and events stay
+		// pending and are judged with the next step that ends with the lock free.
+		run.step++
+		run.trace = append(run.trace, fmt.Sprintf("%d %.3f %s (lock busy)", run.step, time.Since(run.t0).Seconds(), si.Name))
+		run.choices = append(run.choices, si.Name)
+		return
+	}
 	run.step++
 	si.N = run.step
 	si.Results = run.pendRes
@@ -1116,12 +1342,15 @@ func (run *Run) drain() {
 	}
 	start := run.step
 	maxDelay := 11 * time.Second
-	idle := 0
-	for run.step-start < 4000 {
+	idle, stuck := 0, 0
+	for run.step-start < 4000 && run.deadlock == "" {
 		Heartbeat.Add(1)
 		run.collect()
-		var pick *parked
+		pick := run.lockHolderParked()
 		for _, p := range run.core.parkedQ {
+			if pick != nil {
+				break
+			}
 			if run.grantable(p) {
 				pick = p
 				break
@@ -1141,11 +1370,17 @@ func (run *Run) drain() {
 				run.stats.Drained = true
 				break
 			}
+		} else if desc := run.stuckOnLock(); desc != "" && dt >= maxDelay {
+			stuck++
+			if stuck >= 2 {
+				run.declareDeadlock(desc)
+				break
+			}
 		}
 		run.recordStep(StepInfo{Kind: "advance", Name: "advance", Dt: dt, Forced: true})
 	}
 	run.stats.DrainSteps = run.step - start
-	if !run.stats.Drained {
+	if !run.stats.Drained && run.deadlock == "" {
 		run.stats.Inconclusive = append(run.stats.Inconclusive, "drain did not terminate")
 	}
 }
